@@ -16,7 +16,7 @@ import (
 func TestC21(t *testing.T) {
 	r := vf.Start(t, "C21", vf.Exploration)
 	defer r.Finish()
-	r.SetRule("Part (i) Harness B: 2-3 real clients <-> tap/proxy <-> real server; case = PRNG program of <= 6 sends plus receives (application Recv calls are issued explicitly, so receivers can be late), cancellations, stream kills (re-open), and proxy faults within a stream (drop / duplicate / late duplicate / stall of acks, RecvMsg, SendMsg), with quiescent points in between; half of the programs start from directed templates (late receiver + late duplicate ack, cancel then next send, kill between receive and ack). One logical clock (atomic counter): Recv operations are intervals [call, ret], SendRet is a point. Oracle: SendRet(id, ok) => a Recv operation of the addressed peer's application returned id and its CALL precedes SendRet; every Recv-returned payload was sent by that session's partner to this peer. Part (ii) real client against a scripted relay: directed scripts (acks naming a seqno other than the outstanding one - duplicates of earlier acks, +1, +5, 0, huge; clears naming another seqno; ack requested before the application's Recv call; cancel followed by a late ack of the cancelled message; re-open then wrong ack) with every parameter value enumerated, plus PRNG scripts over the same step alphabet. Oracle after every step at a quiescent point: Send ok => the relay pushed AckMsg(seq of that message) after having seen its SendMsg; every AckMsg the client emits names a delivered message and is preceded by an application Recv that returned it (count of acks(q) <= count of Recv returns of q); every ClearMsg the client emits names a message whose Send was cancelled; a delivered, un-cleared message is returned by a pending Recv (expect steps, only where no re-open intervenes). Non-trivial = at least one Send completed ok or one wrong ack/clear was delivered while a message was outstanding; distinct = distinct programs/scripts")
+	r.SetRule("Part (i) Harness B: 2-3 real clients <-> tap/proxy <-> real server; every client holds 1-3 ClientPeerRefs per remote peer (AddPeerRef called repeatedly for the same peer: one shared session; each Send / Recv names the ref it goes through and runs in its own goroutine); case = PRNG program of <= 8 sends plus receives (application Recv calls are issued explicitly, so receivers can be late; Recv calls with an ALREADY CANCELLED context; cancellation of parked Recv activities, also racing an arriving message), send cancellations, stream kills (re-open), and proxy faults within a stream (drop / duplicate / late duplicate / stall of acks, RecvMsg, SendMsg), with quiescent points in between; half of the programs start from directed templates (late receiver + late duplicate ack with the next send through another ref, cancel then next send, caller gives up while the ack is stalled then next send through another ref, equal per-ref warm-up histories first, kill between receive and ack, dead-context Recv on a pending message, parked Recv cancelled around the release of a stalled RecvMsg, dead-context and normal Recv calls interleaved). One logical clock (atomic counter): Recv operations are intervals [call, ret], SendRet is a point. Oracle: SendRet(id, ok) => a Recv operation of the addressed peer's application returned id and its CALL precedes SendRet; every Recv-returned payload was sent by that session's partner to this peer; a Recv that returned an error handed nothing over, so at the final quiescent point the number of AckMsg(s) a client emitted towards a partner is <= the number of successful Recv returns of a message with seqno s from that partner. Part (ii) real client against a scripted relay: directed scripts (acks naming a seqno other than the outstanding one - duplicates of earlier acks, +1, +5, 0, huge; clears naming another seqno; ack requested before the application's Recv call; cancel followed by a late ack of the cancelled message; re-open then wrong ack; with 2-3 ClientPeerRefs: cancelled message acked late / duplicate of an earlier ack while the next message sent through another ref is outstanding, concurrent sends through different refs; application Recv with a dead context on a pending message, around a delivery, after a parked Recv was cancelled) with every parameter value enumerated, plus PRNG scripts over the same step alphabet (1-3 refs, dead-context Recv, cancelrecv). Oracle after every step at a quiescent point: Send ok => the relay pushed AckMsg(seq of that message) after having seen its SendMsg, and one of these acks was pushed on behalf of THAT message (script step ack(id), or an ack chosen by number which stands for every payload the client sent under that number) - an ack of another message never completes it; every AckMsg the client emits names a delivered message and is preceded by an application Recv that returned it (count of acks(q) <= count of Recv returns of q); every ClearMsg the client emits names a message whose Send was cancelled; a delivered, un-cleared message is returned by a pending Recv (expect steps, only where no re-open intervenes). Non-trivial = at least one Send completed ok, or one wrong ack/clear was delivered while a message was outstanding, or a dead-context Recv found a pending message; distinct = distinct programs/scripts")
 	r.Assume("'in the same signaling session' is not enforced beyond the identity of the partner application: a message the partner's application received before a re-open counts as received (DESIGN 8 / report)")
 	pool := keys.Pool(r.Rand("c21-keys"), 9)
 
